@@ -3,7 +3,10 @@
 package referenceserver
 
 import (
+	"context"
 	"net/http"
+
+	"connectrpc.com/connect"
 
 	conformancev1 "connectrpc.com/conformance/internal/gen/proto/go/connectrpc/conformance/v1"
 )
@@ -113,5 +116,39 @@ func H17d_q() {
 		if j < nb {
 			vAssert(under.body[j] == body[j], "body bytes are the given ones")
 		}
+	}
+}
+
+// ---- H17u: which unary requests can prescribe a raw response ----
+//
+// Both unary RPCs of the service (Unary and IdempotentUnary) carry a UnaryResponseDefinition and with it a
+// possible raw_response; the interceptor must hand it to the response writer, and keep the handler from running,
+// for either.
+func H17u_q() {
+	under := &vRespWriter{hdr: http.Header{}}
+	w := &rawResponseWriter{respWriter: under}
+	ctx := context.WithValue(context.Background(), rawResponseKey{}, w)
+	hasRaw := vBool("hasRaw")
+	def := &conformancev1.UnaryResponseDefinition{}
+	if hasRaw {
+		def.RawResponse = &conformancev1.RawHTTPResponse{StatusCode: 418}
+	}
+	var req connect.AnyRequest
+	if vBool("idempotent") {
+		req = connect.NewRequest(&conformancev1.IdempotentUnaryRequest{ResponseDefinition: def})
+	} else {
+		req = connect.NewRequest(&conformancev1.UnaryRequest{ResponseDefinition: def})
+	}
+	called := 0
+	next := func(ctx context.Context, r connect.AnyRequest) (connect.AnyResponse, error) {
+		called++
+		return nil, nil
+	}
+	_, err := rawResponseRecorder{}.WrapUnary(next)(ctx, req)
+	if hasRaw {
+		vAssert(called == 0 && err != nil, "a prescribed raw response keeps the handler from running")
+		vAssert(w.rawResponse() == def.RawResponse, "the prescribed raw response is what the response writer will send, for Unary and IdempotentUnary alike")
+	} else {
+		vAssert(called == 1 && err == nil && w.rawResponse() == nil, "without a raw response the handler runs as usual")
 	}
 }
